@@ -202,4 +202,34 @@ example : parseAll (wire ⟨200, [79, 75], [([120], [121])], [104, 105]⟩ false
     [false, true] = some [received ⟨200, [79, 75], [([120], [121])], [104, 105]⟩ false id, received ⟨404, [78], [], [33]⟩ true id] := by
   decide +kernel
 
+theorem serverHeads_cons (r : Rq) (used : Nat) (rest : List (Rq × Nat)) (S : Bytes) (hu : used ≤ r.body.length) :
+    serverHeads true ((r, used) :: rest) (r.head ++ r.body ++ S) = r.head :: serverHeads true rest S := by
+  simp only [serverHeads, ↓reduceIte]
+  have e3 : used + (r.body.length - used) = r.body.length := by omega
+  rw [e3]
+  simp [List.append_assoc]
+
+/-- **the connection stays in step**: whatever part of each request body the handler consumes (none, a prefix,
+all of it), the heads the server parses on a persistent connection are exactly the heads the client wrote, in order
+— for every sequence of requests and every consumption pattern. -/
+theorem boundaries_in_step : ∀ (rs : List (Rq × Nat)) (tail : Bytes), (∀ p ∈ rs, p.2 ≤ p.1.body.length) →
+    serverHeads true rs (clientStream (rs.map (·.1)) ++ tail) = rs.map (·.1.head) := by
+  intro rs
+  induction rs with
+  | nil => intro _ _; rfl
+  | cons p rest ih =>
+    intro tail h
+    obtain ⟨r, used⟩ := p
+    have hu : used ≤ r.body.length := h (r, used) (by simp)
+    have : clientStream (((r, used) :: rest).map (·.1)) ++ tail =
+        r.head ++ r.body ++ (clientStream (rest.map (·.1)) ++ tail) := by
+      simp [clientStream, List.append_assoc]
+    rw [this, serverHeads_cons r used rest _ hu, ih tail (fun q hq => h q (by simp [hq]))]
+    simp
+
+/-- without the discard (the pinned behaviour, and the first repair's when a handler read only a part): a body the
+handler did not consume is parsed as the next request -/
+example : serverHeads false [(⟨[1, 2], [9, 9, 9]⟩, 0), (⟨[3, 4], []⟩, 0)] [1, 2, 9, 9, 9, 3, 4] = [[1, 2], [9, 9]] := by decide
+example : serverHeads true [(⟨[1, 2], [9, 9, 9]⟩, 1), (⟨[3, 4], []⟩, 0)] [1, 2, 9, 9, 9, 3, 4] = [[1, 2], [3, 4]] := by decide
+
 end Wire1
